@@ -4,8 +4,9 @@
    edges from definitions/constants that are nodes of the module); export h is the model of
    Hugr.to_model() (link names = component representatives, symbols = defining node). *)
 From Coq Require Import ZArith List Bool.
-From HV Require Import model.Export model.ExportNum spec.ExportS spec.ModelAttrsS gen.ModelAttrs proofs.ExportP
-  proofs.ModelAttrsP proofs.ExportOrderP proofs.ExportNumP.
+From HV Require Import model.Export model.ExportNum model.ExportUF spec.ExportS spec.ExportCanon spec.ModelAttrsS
+  gen.ModelAttrs proofs.ExportP proofs.ModelAttrsP proofs.ExportOrderP proofs.ExportNumP proofs.ExportCanonP
+  proofs.ExportUFP.
 
 (* the union-find labelling names two ports alike exactly when the links join them *)
 Theorem C12_components : forall ls p q, rep ls p = rep ls q <-> conn ls p q.
@@ -129,6 +130,41 @@ Theorem C12_numbered_export_meets_spec :
             spec_b Nat.eqb Z.eqb h (export_numbered h) = true.
 Proof. exact numbered_spec. Qed.
 Print Assumptions C12_numbered_export_meets_spec.
+
+(* the comparison up to renaming of the correspondence check (spec/ExportCanon.v: canon) cannot tell the
+   numbered export from export h: what corr ties to the implementation is also the numbered model *)
+Theorem C12_numbered_export_same_up_to_renaming :
+  forall h, valid_b h = true -> canon Nat.eqb Z.eqb (export_numbered h) = canon port_eqb Z.eqb (export h).
+Proof. exact canon_numbered. Qed.
+Print Assumptions C12_numbered_export_same_up_to_renaming.
+
+(* the union-find as the code has it (model/ExportUF.v: parents/sizes maps, find with path splitting on
+   fuel = number of links + 1, union by size): two ports get the same root exactly when the links join them
+   (in particular the fuel is never exhausted) *)
+Theorem C12_union_find_components :
+  forall ls p q, uf_root ls p = uf_root ls q <-> conn ls p q.
+Proof. exact uf_components. Qed.
+Print Assumptions C12_union_find_components.
+
+(* link_name over that union-find, lookups rewriting parents as they go: the names of the calls of an export
+   are the first-use numbers of the roots *)
+Theorem C12_code_link_names :
+  forall h, code_names h = List.map (num_uf h) (visits h).
+Proof. exact code_names_are_num_uf. Qed.
+Print Assumptions C12_code_link_names.
+
+(* the export named by the code's own procedure meets the whole specification and is, up to the renaming of
+   the correspondence check, the export the other theorems speak about *)
+Theorem C12_code_export_meets_spec :
+  forall h, valid_b h = true -> valid_order_b h = true -> order_ports_b h = true -> stars_b h = true ->
+            spec_b Nat.eqb Z.eqb h (export_code h) = true.
+Proof. exact code_spec. Qed.
+Print Assumptions C12_code_export_meets_spec.
+
+Theorem C12_code_export_same_up_to_renaming :
+  forall h, valid_b h = true -> canon Nat.eqb Z.eqb (export_code h) = canon port_eqb Z.eqb (export h).
+Proof. exact canon_code. Qed.
+Print Assumptions C12_code_export_same_up_to_renaming.
 
 Theorem C12_metadata_carried :
   forall h, valid_b h = true -> metadata_carried h (export h) = true.
